@@ -51,13 +51,13 @@ def run(ctx):
         f.write(CFG_E if q else CFG_E.replace("Requests <- MCRequests", "Requests <- MCRequests4"))
     _, cs = cases.enumerate_cases("MC_Trajectory", ecfg, tmp, "traj")
     rnd = random.Random(ctx.seed)
-    configs = ["logistic_diag_src1", "linear_scalar_src1", "shared_speed_src1"] if q else list(tj.KIND_OF)
+    configs = ["logistic_diag_src1", "linear_scalar_src1", "shared_speed_src1", "joint_src1"] if q else list(tj.KIND_OF)
     recs = []
     for cfg in configs:
         mut = tj.ModelUnderTest(cfg, ctx.seed + 1)
-        mine = [c for c in cs if str(c["kind"]) == mut.kind]
+        mine = [c for c in cs if str(c["kind"]) == mut.kind and (not cfg.startswith("joint") or str(c["form"]) == "dict")]
         rnd.shuffle(mine)
-        for c in mine[: (170 if q else len(mine))]:
+        for c in mine[: ((170 if not cfg.startswith("joint") else 60) if q else len(mine))]:
             recs.append(tj.run_estimate_case(mut, c, rnd))
             ctx.case(key=(cfg, repr(c["req"]), str(c["form"])))
     ok, idx, r2 = cases.validate_records("TrajectoryTrace", CFG_T, recs, tmp, "conf")
